@@ -250,6 +250,7 @@ type c23Plan struct {
 	TimeoutMs          int
 	Clients            [][]c23Req
 	FailAt             map[int]string
+	Trickle            bool // shape: consumer stalled by a failure while a few small requests trickle in, then silence
 }
 
 func c23GenPlan(rt *rapid.T) c23Plan {
@@ -286,6 +287,26 @@ func c23GenPlan(rt *rapid.T) c23Plan {
 	for i := 0; i < nf; i++ {
 		p.FailAt[rapid.IntRange(1, 6).Draw(rt, "fail-attempt")] = rapid.SampledFrom([]string{"leadership-lost", "not-leader", "no-leader"}).Draw(rt, "fail-kind")
 	}
+	if rapid.IntRange(0, 4).Draw(rt, "shape-stall-then-trickle") == 0 {
+		// The consumer is kept busy (first apply attempt fails -> 1 s retry sleep)
+		// for many queue timeouts while 3-5 single-statement requests arrive more
+		// than one timeout apart and far below the batch size; then no more traffic.
+		p.Trickle = true
+		p.Batch = rapid.SampledFrom([]int{16, 128}).Draw(rt, "trickle-batch-size")
+		p.TimeoutMs = rapid.SampledFrom([]int{3, 10, 40}).Draw(rt, "trickle-timeout-ms")
+		p.Cap = 64
+		p.FailAt = map[int]string{1: rapid.SampledFrom([]string{"leadership-lost", "not-leader", "no-leader"}).Draw(rt, "trickle-fail-kind")}
+		n := rapid.IntRange(3, 5).Draw(rt, "trickle-requests")
+		var rs []c23Req
+		for i := 0; i < n; i++ {
+			q := c23Req{Stmts: 1}
+			if i > 0 {
+				q.PauseMs = p.TimeoutMs * rapid.IntRange(2, 6).Draw(rt, "trickle-gap-timeouts")
+			}
+			rs = append(rs, q)
+		}
+		p.Clients = [][]c23Req{rs}
+	}
 	return p
 }
 
@@ -310,7 +331,7 @@ type c23Issued struct {
 
 func TestVerif_C23_Queue(t *testing.T) {
 	rec := vstat.New(t, "C23", "queue",
-		"rapid: node role {leader, follower forwarding to a fake leader} x credential store {none, configured (clients present a user holding execute; the fake leader enforces the same rule)} x queue transaction flag x batch size 1-6 x capacity {1,2,8,64} x batch timeout {1,3,10,40} ms; 2-4 concurrent clients x 1-5 requests of 0-3 tagged statements x {no wait, wait, wait with 30 ms timeout} with think times; 0-2 injected transient failures {leadership lost, not leader, leader unknown} at generated apply attempts; non-trivial = at least two clients issued statements and (a batch boundary can fall inside the run: total statements > batch size, or a failure is injected); distinct by plan")
+		"rapid: node role {leader, follower forwarding to a fake leader} x credential store {none, configured (clients present a user holding execute; the fake leader enforces the same rule)} x queue transaction flag x batch size 1-6 x capacity {1,2,8,64} x batch timeout {1,3,10,40} ms; 2-4 concurrent clients x 1-5 requests of 0-3 tagged statements x {no wait, wait, wait with 30 ms timeout} with think times; 0-2 injected transient failures {leadership lost, not leader, leader unknown} at generated apply attempts; every fifth plan has the shape 'consumer stalled by a failed first attempt while 3-5 single-statement requests trickle in 2-6 queue timeouts apart, far below the batch size (16/128), then silence'; non-trivial = at least two clients issued statements and (a batch boundary can fall inside the run: total statements > batch size, or a failure is injected); distinct by plan")
 	rapid.Check(t, func(rt *rapid.T) {
 		p := c23GenPlan(rt)
 		canon := p.String()
@@ -325,7 +346,10 @@ func TestVerif_C23_Queue(t *testing.T) {
 				active++
 			}
 		}
-		rec.Case(active >= 2 && (total > p.Batch || len(p.FailAt) > 0), canon)
+		rec.Case((active >= 2 && (total > p.Batch || len(p.FailAt) > 0)) || p.Trickle, canon)
+		if p.Trickle {
+			rec.Label("shape:stall-then-trickle")
+		}
 		rec.Sample(canon)
 		switch {
 		case p.Follower && p.Auth:
